@@ -4,7 +4,7 @@ from __future__ import annotations
 import numpy as np
 import scipy.linalg as sl
 
-from vf import gen, probes
+from vf import gen, plumbing, probes
 
 PID = "C05"
 ANCHORS = ["pyoma2.functions.plscf:pLSCF", "pyoma2.functions.plscf:rmfd2ac", "pyoma2.functions.plscf:ac2mp_poly", "pyoma2.functions.plscf:pLSCF_poles",
@@ -22,7 +22,17 @@ ASSUMPTIONS = ["tolerance 1e-8 * kappa (kappa = eigenvector condition of the blo
                "an exactly singular over-parameterised order (ordmax > n) may raise LinAlgError: that attempt is not judged and the case re-run with ordmax = n"]
 
 
+PLUMB_CLASSES = ['pLSCF', 'pLSCF_MS']
+PLUMB_FIELDS = ['Ad', 'Bn', 'Fn_poles', 'Xi_poles', 'Phi_poles', 'Lambds']
+REQUIRED_MONITORS = list(REQUIRED_MONITORS) + ["class=function@pLSCF.run"] + [f"plumbing:{s_}" for s_ in plumbing.SCENARIOS]
+REQUIRED_STATES = list(REQUIRED_STATES) + [f"plumbing scenario {s_}" for s_ in plumbing.SCENARIOS]
+
+
 def cases(tier, seed):
+    return _cases(tier, seed) + plumbing.cases(len(plumbing.SCENARIOS) * len(PLUMB_CLASSES) * (1 if tier == "quick" else 6), PLUMB_CLASSES)
+
+
+def _cases(tier, seed):
     n1, n2 = (200, 16) if tier == "quick" else (4000, 200)
     return [{"cls": "rational", "k": k} for k in range(n1)] + [{"cls": "noisy_run", "k": k} for k in range(n2)]
 
@@ -311,9 +321,22 @@ def run_noisy(ctx, rng):
     for Ad, Bn, dt, methodSy, nxseg, out in rec_p:
         ctx.check(methodSy == method and nxseg == alg.run_params.nxseg and abs(dt - 1 / fs) < 1e-15, "run:arguments", "pLSCF.run passed other dt / method / nxseg to pLSCF_poles than configured")
         check_poles_call(ctx, "columns@pLSCF_poles(inside pLSCF.run)", Ad, Bn, dt, methodSy, nxseg, out)
+    # the class is the function applied to the spectrum it stores: coefficients of every order from result.Sy with the recorded settings
+    ctx.ev("class=function@pLSCF.run")
+    r = alg.result
+    okc = False
+    for sg in (-1, +1):  # which basis sign the class uses is its own business
+        Ad_f, Bn_f = P_.pLSCF(np.asarray(r.Sy), 1 / fs, alg.run_params.ordmax, sgn_basf=sg)
+        okc = okc or (len(r.Ad) == len(Ad_f) and all(np.shape(a) == np.shape(b) and np.allclose(a, b, rtol=1e-7, atol=1e-9 * max(np.max(np.abs(b)), 1e-300)) for a, b in zip(r.Ad, Ad_f)))
+    ctx.check(okc, "run:coefficients_not_those_of_the_stored_spectrum",
+              "pLSCF.run: result.Ad is not what plscf.pLSCF gives for result.Sy (all lines) with the recorded dt / ordmax")
+    f_exp = np.arange(np.shape(r.Sy)[2]) * fs / alg.run_params.nxseg
+    ctx.check(np.shape(r.freq) == f_exp.shape and np.allclose(r.freq, f_exp, rtol=1e-12, atol=0), "run:frequency_axis", "pLSCF.run: result.freq is not k*fs/nxseg")
     ctx.nontrivial(("noisy", nch, method, alg.run_params.ordmax, fs))
 
 
 def run_case(ctx, case):
+    if case["cls"] == "plumbing":
+        return plumbing.run_case(ctx, case, gen.rng_of(case), PLUMB_FIELDS)
     rng = gen.rng_of(case)
     (run_rational if case["cls"] == "rational" else run_noisy)(ctx, rng)
